@@ -221,6 +221,13 @@ fn model(c: &Case03) -> Model {
                 Ok(v) => base.vars.push((s.name.clone(), v)),
                 Err(e) => return Model::Unspecified(e),
             }
+        } else {
+            // a value expression is closed: evaluated without input and without bindings
+            match concrete(Evaluator::new().eval(&s.value, &Cx::default())) {
+                Ok(Some(v)) => base.vars.push((s.name.clone(), v)),
+                Ok(None) => return Model::Unspecified("--set value is nothing (rejected configuration)".into()),
+                Err(m) => return Model::Unspecified(m),
+            }
         }
     }
     let ev = |e: &Expr, cx: &Cx| concrete(Evaluator::new().eval(e, cx));
